@@ -278,6 +278,27 @@ PROPS['C18'] = {
     ],
 }
 
+PROPS['C17'] = {
+    'level': 'proof',
+    'level_text': 'Partial. Proved (Verus, unbounded lengths): the text codec to_base62/from_base62 is value-exact, so a body that does not start with a zero byte survives the text form; mask_with_keystream is an involution for every body length (SHA-512 as uninterpreted function) and never faults. Proved (Kani, all 2^48 triples): the age window is the cyclic distance of the hour stamps in either direction. Known finding: bodies starting with 0x00 are not recovered. NOT decided: finding the markers inside arbitrary text (str::find / slicing), peerlist_decode parsing, different passwords.',
+    'verus': [{'unit': 'base62', 'fns': ['base62_add_mult_16', 'to_base62', 'from_base62', 'lemma_.*']}, {'unit': 'beacon'}],
+    'kani': {
+        'files': {'src/beacon.rs': ['kani/beaconblocks.rs.in']},
+        'harnesses': [K('beacon::__verif_beaconblocks::', 'beacon_age_window_is_cyclic_distance', 'age test of peerlist_decode: rejected <=> cyclic distance of the 16-bit hour stamps > ttl, in either direction; all 2^48 triples', fns=['beacon::BeaconSerializer::peerlist_decode (block: age test)'])],
+    },
+    'native_search': {'base62::lemma_roundtrip_any_body': {'file': 'native/beacon_roundtrip.rs', 'attach': 'src/beacon.rs', 'test': 'beacons_round_trip_for_every_hour'},
+                      r'beacon::BeaconSerializer::mask_with_keystream': {'file': 'native/beacon_long_text.rs', 'attach': 'src/beacon.rs', 'test': 'long_beacon_bodies_do_not_panic'}},
+    'trusted': [
+        'SHA-512 key stream as an uninterpreted function ks(password, type, seed, block) of length 64; R6: SmallVec<[u8;64]> modelled by Vec<u8>',
+        'std contracts written in the units: <[T]>::reverse, String::with_capacity; R5 pinned `buf[0..buflen].reverse();`',
+    ],
+    'not_decided': [
+        'marker search in arbitrary text (BeaconSerializer::decode: str::find, sanitising, several beacons per text, overlapping begin/end markers)',
+        'peerlist_encode / peerlist_decode field layout (SmallVec, SocketAddr constructors, Wrapping)',
+        'rejection of beacons made with a different password (1-byte seed check)',
+    ],
+}
+
 NOT_APPLICABLE = {
     'C01': 'needs Ed25519 unforgeability plus InitMsg::read_from / InitState::handle_init, which neither back end reaches (150-line TLV parser over Cursor/SmallVec; ring key objects); no contract within reach expresses it',
     'C05': 'all-schedules agreement and recovery of two retransmitting state machines plus a liveness bound: a protocol-level joint invariant and liveness, outside per-function contracts',
@@ -286,6 +307,5 @@ NOT_APPLICABLE = {
     'C10': 'pending',
     'C14': 'convergence of N nodes is liveness over multi-node histories; the safety half lives in handle_init/connect (out of reach of both back ends)',
     'C15': 'pending',
-    'C17': 'pending',
     'C19': 'pending',
 }
